@@ -75,6 +75,14 @@ CHECKS = {
             'as from an unfaulted copy; token-position edits of valid formulas', 'DESIGN.md 2/C17'),
     'C18': (EX[0], EX[1], 'all functions, root sets of size 1-2, every view evaluated',
             'DESIGN.md 2/C18'),
+    'C19': (MC[0], 'explicit-state exploration of models extracted mechanically from the .pyx source on every '
+            'run (operator dispatch interpreted on all valuations; per-function reference-count path '
+            'automaton), with the extractor conformance-checked by replaying sibling-model traces against '
+            'the running pure-Python apply methods',
+            'the C extensions cannot be built offline: decided on a source-level model with a stated trusted '
+            'base of primitive meanings; every accepted symbol x arity x valuation compared with the running '
+            'dd.bdd.BDD.apply; every path of every function touching reference primitives balanced',
+            'DESIGN.md 2/C19'),
 }
 
 NOTE = ('trusted: CPython 3.12, mc/ref.py (truth tables), mc/oracle.py (independent denotation walker and '
